@@ -124,6 +124,11 @@ Closed(c1, last) ==          \* packets closed by accepting a word that makes th
     IF Len(c1) = MaxPkt THEN IF last THEN <<c1, <<>>>> ELSE <<c1>>
     ELSE IF last THEN <<c1>> ELSE <<>>
 
+\* Same-cycle tolerance: a stream word accepted in the very cycle in which an IN request is reported to the endpoint may be
+\* ordered before or after it -- the endpoint may answer "nothing held" (NRDY, then ERDY) or send the packet that word
+\* completed.  Such a word (field `same`) turns the NRDY owed for that request into an item that admits both answers.
+KindIs(x, k) == x.k = k \/ (x.k = "nrdy_or_dp" /\ k \in {"nrdy", "dp"})
+
 \* an IN request (NumP > 0) for the IN endpoint in a state with packets p, sequence number s
 PollOwes(p, s, a) == IF p # <<>> THEN DpItem(s, Head(p), a) ELSE TpItem("nrdy", ANY, ANY, a)
 
@@ -145,6 +150,8 @@ JudgeHostTp(e) ==
         ELSE "ok"
     ELSE IF e.ep = EpIn THEN
         IF e.sub # 1 THEN "env_status_to_bulk_endpoint"
+        \* (the host waits for the answer -- NRDY or the packet -- of a request whose ordering against a stream word is open)
+        ELSE IF \E i \in 1..Len(owed[EpIn]) : owed[EpIn][i].k = "nrdy_or_dp" THEN "env_request_while_answer_open"
         ELSE IF infl THEN
             IF e.rty = 1 \/ e.seq = seqn THEN (IF e.nump = 0 THEN "env_retry_without_request" ELSE "ok")
             ELSE IF e.seq = (seqn + 1) % 32 THEN "ok" ELSE "env_ack_sequence"
@@ -159,8 +166,8 @@ JudgeDevHeader(e) ==
         LET k == TpKind(e.sub)
             q == IF e.ep \in EPs THEN owed[e.ep] ELSE <<>>
             SameReq(x) == x.k = k /\ x.ep = e.ep /\ (k = "ack" => x.seq = e.seq /\ x.rty = e.rty)
-            Kind(x) == x.k = k
-            Full(x) == /\ x.k = k
+            Kind(x) == KindIs(x, k)
+            Full(x) == /\ KindIs(x, k)
                        /\ (k = "ack" /\ x.seq # ANY => x.seq = e.seq)
                        /\ (k = "ack" /\ x.rty # ANY => x.rty = e.rty)
                        /\ e.addr \in x.addrs
@@ -175,8 +182,8 @@ JudgeDevHeader(e) ==
                 ELSE "tp_retry"
     ELSE IF e.type = 8 THEN
         LET q == IF e.ep \in EPs THEN owed[e.ep] ELSE <<>>
-            Kind(x) == x.k = "dp"
-            Full(x) == x.k = "dp" /\ x.seq = e.seq /\ Len(x.b) = e.len /\ e.addr \in x.addrs
+            Kind(x) == KindIs(x, "dp")
+            Full(x) == KindIs(x, "dp") /\ x.seq = e.seq /\ Len(x.b) = e.len /\ e.addr \in x.addrs
         IN IF First(q, Full) # 0 THEN "ok"
            ELSE IF First(q, Kind) = 0 THEN "dp_not_owed"
            ELSE LET x == q[First(q, Kind)] IN
@@ -203,7 +210,8 @@ Judge(e) ==
       [] e.e = "itp"   -> IF ~up THEN "env_traffic_while_down" ELSE "ok"
       [] e.e = "lmp"   -> "ok"
       [] e.e = "w"     -> IF Len(e.b) \notin 1..WordLen \/ Len(cur) + Len(e.b) > MaxPkt THEN "env_word_shape"
-                          ELSE IF Len(e.b) < WordLen /\ ~e.last THEN "env_word_shape" ELSE "ok"
+                          ELSE IF Len(e.b) < WordLen /\ ~e.last THEN "env_word_shape"
+                          ELSE IF e.same /\ ~ViaWire /\ ~(ev.e = "tp" /\ ev.ep = EpIn) THEN "env_same_cycle_flag" ELSE "ok"
       [] e.e = "req"   -> "ok"
       [] e.e = "dhp"   -> JudgeDevHeader(e)
       [] e.e = "ddp"   -> IF ~dpOpen.open THEN "dp_payload_without_header"
@@ -264,24 +272,29 @@ ApplyDevHeader(e) ==
     IF e.type = 4 THEN
         LET k == TpKind(e.sub)
             SameReq(x) == x.k = k /\ x.ep = e.ep /\ (k = "ack" => x.seq = e.seq /\ x.rty = e.rty)
-            Full(x) == /\ x.k = k
+            Full(x) == /\ KindIs(x, k)
                        /\ (k = "ack" /\ x.seq # ANY => x.seq = e.seq)
                        /\ (k = "ack" /\ x.rty # ANY => x.rty = e.rty)
                        /\ e.addr \in x.addrs
             i == First(reqq, SameReq)
             j == First(owed[e.ep], Full)
+            x == owed[e.ep][j]
         IN /\ reqq' = DropTo(reqq, i)
            /\ nLost' = nLost + (i - 1)
            /\ nWire' = nWire + 1
-           /\ owed' = [owed EXCEPT ![e.ep] = DropTo(@, j)]
-           /\ Same(dpOpen)
+           \* (the either-item answered NRDY: the request was ordered first, so the packet's arrival now owes the ERDY)
+           /\ owed' = [owed EXCEPT ![e.ep] = (IF x.k = "nrdy_or_dp" THEN <<[x EXCEPT !.k = "erdy", !.b = <<>>]>> ELSE <<>>)
+                                             \o DropTo(@, j)]
+           /\ Same(<<dpOpen, infl>>)
     ELSE IF e.type = 8 THEN
-        LET Full(x) == x.k = "dp" /\ x.seq = e.seq /\ Len(x.b) = e.len /\ e.addr \in x.addrs
+        LET Full(x) == KindIs(x, "dp") /\ x.seq = e.seq /\ Len(x.b) = e.len /\ e.addr \in x.addrs
             j == First(owed[e.ep], Full)
         IN /\ dpOpen' = [open |-> TRUE, b |-> owed[e.ep][j].b]
            /\ owed' = [owed EXCEPT ![e.ep] = DropTo(@, j)]
+           \* (the either-item answered with the packet: the word was ordered first, the packet is now in flight)
+           /\ infl' = IF owed[e.ep][j].k = "nrdy_or_dp" THEN TRUE ELSE infl
            /\ Same(<<reqq, nLost, nWire>>)
-    ELSE Same(<<reqq, nLost, nWire, owed, dpOpen>>)
+    ELSE Same(<<reqq, nLost, nWire, owed, dpOpen, infl>>)
 
 ClearOpt(q) == SelectSeq(q, LAMBDA x : ~x.opt)
 
@@ -330,11 +343,16 @@ Apply(e) ==
          [] e.e = "w" ->
             LET c1 == cur \o e.b
                 cl == Closed(c1, e.last)
-                erdy == fc /\ ~infl /\ pk = <<>> /\ cl # <<>> IN
+                erdy == fc /\ ~infl /\ pk = <<>> /\ cl # <<>>
+                q    == owed[EpIn]
+                \* the NRDY owed for the request reported in this very cycle (still the last item owed)
+                either == erdy /\ e.same /\ q # <<>> /\ q[Len(q)].k = "nrdy" /\ ~q[Len(q)].opt IN
             /\ pk' = pk \o cl
             /\ cur' = IF cl = <<>> THEN c1 ELSE <<>>
             /\ gAcc' = gAcc \o e.b
-            /\ owed' = IF erdy THEN Owe(owed, EpIn, TpItem("erdy", ANY, ANY, addr)) ELSE owed
+            /\ owed' = IF either THEN [owed EXCEPT ![EpIn] = [@ EXCEPT ![Len(q)] =
+                                          [@ EXCEPT !.k = "nrdy_or_dp", !.seq = seqn, !.b = Head(cl)]]]
+                        ELSE IF erdy THEN Owe(owed, EpIn, TpItem("erdy", ANY, ANY, addr)) ELSE owed
             /\ fc' = IF erdy THEN FALSE ELSE fc
             /\ Same(<<up, rstPending, addr, cfg, req, reqq, dpOpen, rxq, infl, seqn, lastItp,
                       gAcked, gAddrSet, nReq, nWire, nLost>>)
@@ -345,7 +363,7 @@ Apply(e) ==
                       gAcc, gAcked, gAddrSet, nWire, nLost>>)
          [] e.e = "dhp" ->
             /\ ApplyDevHeader(e)
-            /\ Same(<<up, rstPending, addr, cfg, req, rxq, pk, cur, infl, seqn, fc, lastItp,
+            /\ Same(<<up, rstPending, addr, cfg, req, rxq, pk, cur, seqn, fc, lastItp,
                       gAcc, gAcked, gAddrSet, nReq>>)
          [] e.e = "ddp" ->
             /\ dpOpen' = NoDp
